@@ -9,11 +9,18 @@
 //! length 0..40 (biased towards a valid magic byte so that decoding gets past the header),
 //! extreme timestamps, extreme and non-finite references.
 //!
+//! Calls are made one after the other on one thread, in the order of the input (twin pairs
+//! of Gen_Flarm rely on that).  An input line with `"rep": 1` is decoded and its outcome
+//! remembered; the later line with the same `i` and `"rep": 2` is decoded again and the
+//! event carries both outcomes (`first`, and `out`/`r`).  Every 16th drawn totality input
+//! is likewise decoded a second time at the end of the run.
+//!
 //! No expectation lives here.  Floats are logged as {"k":"num","v":scaled integer} /
 //! {"k":"nonfinite"} / {"k":"out_of_i32"}; the trace specification Trace_Flarm judges.
 use rs1090::decode::flarm::Flarm;
 use rsdriver::*;
 use serde_json::{json, Value};
+use std::collections::HashMap;
 use std::panic::catch_unwind;
 
 fn num(x: f64, k: f64, floor: bool) -> Value {
@@ -117,15 +124,28 @@ fn ref_class(x: f64) -> &'static str {
     }
 }
 
-fn fuzz_event(tr: &mut Trace, pkt: &[u8], ts: u32, reference: [f64; 2], cls: &str) {
+fn fuzz_event(
+    tr: &mut Trace,
+    pkt: &[u8],
+    ts: u32,
+    reference: [f64; 2],
+    cls: &str,
+    first: Option<&Value>,
+) -> Value {
     let (out, r) = call(ts, reference, pkt);
-    tr.emit(json!({
+    let mut ev = json!({
         "e": "fuzz", "cls": cls, "pkt": bytes_json(pkt),
         "ts": [(ts >> 16) as u64, (ts & 0xFFFF) as u64],
         "ref": [halves_of_f64(reference[0]), halves_of_f64(reference[1])],
         "refcls": [ref_class(reference[0]), ref_class(reference[1])],
         "out": out, "r": r,
-    }));
+    });
+    if let Some(f) = first {
+        ev["first"] = f.clone();
+    }
+    let outcome = json!({"out": ev["out"], "r": ev["r"]});
+    tr.emit(ev);
+    outcome
 }
 
 fn main() {
@@ -136,6 +156,7 @@ fn main() {
     let seed: u64 = args.get(2).and_then(|s| s.parse().ok()).unwrap_or(1);
     let n_fuzz: usize = args.get(3).and_then(|s| s.parse().ok()).unwrap_or(0);
 
+    let mut remembered: HashMap<String, Value> = HashMap::new();
     if input != "-" {
         for v in read_lines(input) {
             if v.get("p").is_some() {
@@ -148,13 +169,24 @@ fn main() {
                     p["reflon"].as_i64().expect("reflon") as f64 / 1e7,
                 ];
                 let (out, r) = call(ts, reference, &pkt);
-                tr.emit(json!({"e": "rt", "i": v["i"], "p": p, "pkt": v["pkt"], "out": out, "r": r}));
+                let fam = v.get("fam").cloned().unwrap_or(json!("plain"));
+                let mut ev = json!({"e": "rt", "i": v["i"], "fam": fam, "p": p, "pkt": v["pkt"], "out": out, "r": r});
+                match v.get("rep").and_then(|x| x.as_u64()) {
+                    Some(1) => {
+                        remembered.insert(v["i"].to_string(), json!({"out": ev["out"], "r": ev["r"]}));
+                    }
+                    Some(2) => {
+                        ev["first"] = remembered.get(&v["i"].to_string()).expect("rep 2 without rep 1").clone();
+                    }
+                    _ => {}
+                }
+                tr.emit(ev);
             } else {
                 let pkt = bytes_of(&v["pkt"]);
                 let ts = halves_u32(&v["ts"]);
                 let reference = [f64_of_halves(&v["ref"][0]), f64_of_halves(&v["ref"][1])];
                 let cls = v["cls"].as_str().unwrap_or("replay").to_string();
-                fuzz_event(&mut tr, &pkt, ts, reference, &cls);
+                fuzz_event(&mut tr, &pkt, ts, reference, &cls, None);
             }
         }
     }
@@ -169,6 +201,7 @@ fn main() {
         1e300, -1e300, f64::MAX, f64::MIN, 5e-324, 214.7483647, 214.7483648, -214.7483648,
         -214.7483649, 211.4, -211.4, 43.61924, 5.11755, 1e-7, -1e-7,
     ];
+    let mut again: Vec<(Vec<u8>, u32, [f64; 2], &str, Value)> = Vec::new();
     for n in 0..n_fuzz {
         let kind = n % 8;
         let (cls, len) = match kind {
@@ -203,7 +236,13 @@ fn main() {
                 }
             };
         }
-        fuzz_event(&mut tr, &pkt, ts, reference, cls);
+        let outcome = fuzz_event(&mut tr, &pkt, ts, reference, cls, None);
+        if n % 16 == 5 {
+            again.push((pkt, ts, reference, cls, outcome));
+        }
+    }
+    for (pkt, ts, reference, cls, outcome) in again.iter() {
+        fuzz_event(&mut tr, pkt, *ts, *reference, cls, Some(outcome));
     }
     tr.flush();
 }
